@@ -753,6 +753,13 @@ func (env *Env) callExpr(e *CExpr) CVal {
 	case "bytes":
 		s := env.force(arg(0))
 		return CVal{T: env.bsOf(s)}
+	case "iref": // the reference stored in an interface value
+		v := env.force(arg(0))
+		return CVal{T: Acc("iref", v.T)}
+	case "byte1": // the one-byte string []byte{b} as the code builds it
+		b := env.coerce(arg(0), types.Typ[types.Uint8])
+		arr := Store(ConstArr(ArrSort(BV(64), BV(8)), BVLit(0, 8)), bv64(0), b.T)
+		return CVal{T: UF("bs_of", SBS, arr, bv64(0), bv64(1))}
 	case "bytesarrv": // bytes of a fixed-size array value
 		a := env.force(arg(0))
 		at := a.Ty.Underlying().(*types.Array)
